@@ -4,6 +4,8 @@ import (
 	"bytes"
 	"fmt"
 	"math"
+	"os"
+	"os/exec"
 	"testing"
 
 	"github.com/cloudwego/gopkg/protocol/thrift"
@@ -952,4 +954,172 @@ func TestC13_GetUnknownFields(t *testing.T) {
 		}
 		return GetUFCase{Data: u.Data, Order: rapid.SliceOfN(rapid.IntRange(0, 8), 1, 12).Draw(t, "order")}
 	}, checkGetUnknownFields)
+}
+
+// ---- a wide container above a deep chain ---------------------------------------------------------------
+
+// WideDeepCase: one field holding a list of N lists; element At is a chain of Depth nested one-element lists
+// (the others are empty lists). Well formed, whatever N and Depth are.
+type WideDeepCase struct {
+	N     int `json:"n"`
+	Depth int `json:"depth"`
+	At    int `json:"at"`
+}
+
+func checkWideDeep(c WideDeepCase, cv *cov) *evid.Violation {
+	if c.N < 1 || c.N > 5000 || c.Depth < 0 || c.Depth > 300 || c.At < 0 || c.At >= c.N {
+		return nil
+	}
+	chain := ref.Value{T: ref.LIST, ET: ref.BYTE}
+	for i := 0; i < c.Depth; i++ {
+		chain = ref.Value{T: ref.LIST, ET: ref.LIST, Elems: []ref.Value{chain}}
+	}
+	outer := ref.Value{T: ref.LIST, ET: ref.LIST}
+	for i := 0; i < c.N; i++ {
+		if i == c.At {
+			outer.Elems = append(outer.Elems, chain)
+		} else {
+			outer.Elems = append(outer.Elems, ref.Value{T: ref.LIST, ET: ref.BYTE})
+		}
+	}
+	data := ref.Append([]byte{byte(ref.LIST), 0, 3}, &outer, nil)
+	data = append(data, byte(ref.I16), 0, 4, 0, 7) // a scalar field behind it
+	v := checkUnknownFields(UFCase{Data: data}, cv)
+	cv.nontrivial = true
+	return v
+}
+
+func init() { register("c13_wide_deep", checkWideDeep) }
+
+func TestC13_WideDeep(t *testing.T) {
+	rec := evid.New("C13", "c13_wide_deep", "enumeration: a list of n in {1, 1023, 1024, 1025, 2000, 4097} lists of which one (the first, a middle or the last) is a chain of depth in {0, 1, 31, 62, 63, 64, 65, 100, 200} nested one-element lists, followed by a scalar field; full C13 oracle; distinct by construction")
+	defer rec.Flush()
+	b := evid.NewBatch()
+	for _, n := range []int{1, 1023, 1024, 1025, 2000, 4097} {
+		for _, d := range []int{0, 1, 31, 62, 63, 64, 65, 100, 200} {
+			for _, at := range []int{0, n / 2, n - 1} {
+				c := WideDeepCase{N: n, Depth: d, At: at}
+				var cv cov
+				viol := checkWideDeep(c, &cv)
+				b.Evals++
+				b.Distinct++
+				b.Nontrivial++
+				if viol != nil {
+					if len(viol.Msg) > 1500 {
+						viol.Msg = viol.Msg[:1500]
+					}
+					failEnum(t, rec, "c13_wide_deep", c, viol)
+					rec.Merge(b)
+					return
+				}
+			}
+		}
+	}
+	rec.Merge(b)
+	rec.Sample(WideDeepCase{N: 1025, Depth: 63, At: 512})
+	rec.SetExhaustive()
+}
+
+// ---- GetUnknownFields: a call that is rejected must not spoil later calls for the same type -----------------
+
+// These holder types are used by TestC13_RejectedFirst only, so that its first call is the first time the
+// library meets them in this process.
+type ufFreshA struct {
+	_unknownFields []byte
+	N              int
+}
+
+type ufFreshB struct {
+	Name           string
+	_unknownFields []byte
+}
+
+type ufFreshC struct {
+	X              [2]int32
+	_unknownFields []byte
+}
+
+func TestC13_RejectedFirst(t *testing.T) {
+	rec := evid.New("C13", "c13_rejected_first", "enumeration: for three holder types the library has not met before in the process: the first call passes a nil pointer of the type (rejected with an error or answered with no fields), the following calls pass valid holders (pointer and value) of the same type carrying a well-formed field sequence: each must give the tree ConvertUnknownFields gives, which writes back to the stored bytes; then again a nil pointer and again a valid holder; every type is one evaluation")
+	defer rec.Flush()
+	data := []byte{byte(ref.I32), 0, 1, 0, 0, 0, 7, byte(ref.STRING), 0, 2, 0, 0, 0, 2, 'h', 'i', byte(ref.LIST), 0, 3, byte(ref.BYTE), 0, 0, 0, 1, 9}
+	want, err := uf.ConvertUnknownFields(append([]byte(nil), data...))
+	if err != nil {
+		t.Fatalf("harness: %v", err)
+	}
+	type holder struct {
+		name   string
+		nilPtr interface{}
+		valid  []func() interface{}
+	}
+	hs := []holder{
+		{"ufFreshA", (*ufFreshA)(nil), []func() interface{}{func() interface{} { return &ufFreshA{_unknownFields: data} }, func() interface{} { return ufFreshA{_unknownFields: data} }}},
+		{"ufFreshB", (*ufFreshB)(nil), []func() interface{}{func() interface{} { return ufFreshB{_unknownFields: data} }, func() interface{} { return &ufFreshB{_unknownFields: data} }}},
+		{"ufFreshC", (*ufFreshC)(nil), []func() interface{}{func() interface{} { return &ufFreshC{_unknownFields: data} }}},
+	}
+	b := evid.NewBatch()
+	for _, h := range hs {
+		var viol *evid.Violation
+		p, st := evid.Safe(func() {
+			for round := 0; round < 2 && viol == nil; round++ {
+				got, err := uf.GetUnknownFields(h.nilPtr)
+				if err == nil && len(got) != 0 {
+					viol = evid.Failf("GetUnknownFields((*%s)(nil)) returned %d fields and no error", h.name, len(got))
+					return
+				}
+				for k, mk := range h.valid {
+					got, err := uf.GetUnknownFields(mk())
+					if err != nil {
+						viol = evid.Failf("round %d: after GetUnknownFields((*%s)(nil)) had been rejected, GetUnknownFields of a valid %s (variant %d) holding %d well-formed bytes failed: %v", round, h.name, h.name, k, len(data), err)
+						return
+					}
+					out := make([]byte, len(data))
+					l, _ := uf.UnknownFieldsLength(got)
+					if len(got) != len(want) || l != len(data) {
+						viol = evid.Failf("round %d: GetUnknownFields of a valid %s (variant %d) gives %d fields of %d bytes, want %d fields of %d bytes", round, h.name, k, len(got), l, len(want), len(data))
+						return
+					}
+					if n, werr := uf.WriteUnknownFields(out, got); werr != nil || n != len(data) || !bytes.Equal(out, data) {
+						viol = evid.Failf("round %d: the tree from GetUnknownFields of a valid %s does not write back to the stored bytes (n=%d err=%v)", round, h.name, n, werr)
+						return
+					}
+				}
+			}
+		})
+		if p != nil {
+			viol = &evid.Violation{Msg: fmt.Sprintf("GetUnknownFields panicked for %s: %v", h.name, p), Stack: st}
+		}
+		b.Evals++
+		b.Distinct++
+		b.Nontrivial++
+		if viol != nil {
+			failEnum(t, rec, "c13_rejected_first", struct {
+				Holder string `json:"holder"`
+			}{h.name}, viol)
+			break
+		}
+	}
+	rec.Merge(b)
+	rec.SetExhaustive()
+}
+
+func init() {
+	register("c13_rejected_first", func(c struct {
+		Holder string `json:"holder"`
+	}, cv *cov) *evid.Violation {
+		// the first-use condition cannot be re-created inside a process that has run other cases: the replay
+		// runs the test itself in a fresh process
+		cmd := exec.Command(os.Args[0], "-test.run", "^TestC13_RejectedFirst$")
+		cmd.Env = append(os.Environ(), "VERIF_OUT=", "VERIF_REPLAY=", "VERIF_REPLAY_DIR=")
+		out, _ := cmd.CombinedOutput()
+		if i := bytes.Index(out, []byte("VIOLATION-CASE")); i >= 0 {
+			msg := string(out[i:])
+			if len(msg) > 700 {
+				msg = msg[:700]
+			}
+			return evid.Failf("in a fresh process: %s", msg)
+		}
+		cv.nontrivial = true
+		return nil
+	})
 }
